@@ -1751,6 +1751,57 @@ func (e *c34Env) analyse(fam, format string, s *PkgSpec, data []byte, res *c34Re
 			}
 			res.TarBy["rpm:file:skipped-size"]++
 		}
+		// what the rpm states about its own bytes (model of rpmpack's writeSignatures / payload digest, RpmSig.lean;
+		// theorem rpm_self_description_covers_shipped_bytes): SHA256, SIZE and PAYLOADSIZE of the signature header and
+		// the payload digest entries of the main header, recomputed here from the regions of the file as shipped
+		{
+			hsum := sha256.Sum256(x.HeaderRaw)
+			psum := sha256.Sum256(x.PayloadRaw)
+			payloadSize := 0
+			for _, ce := range x.Cpio {
+				payloadSize += len(ce.Body)
+			}
+			encTag := func(t decode.RpmTag) string {
+				var d []byte
+				switch t.Type {
+				case 4:
+					for _, v := range t.Ints {
+						d = append(d, byte(v>>24), byte(v>>16), byte(v>>8), byte(v))
+					}
+				case 6, 8:
+					for _, sv := range t.Strs {
+						d = append(append(d, sv...), 0)
+					}
+				case 7:
+					d = t.Bin
+				}
+				return fmt.Sprintf(" %d %d %d %s", t.Tag, t.Type, t.Count, wire.H(string(d)))
+			}
+			var want strings.Builder
+			n := 0
+			for _, tg := range []int{273, 1000, 1007} {
+				if t, ok := x.Sig[tg]; ok {
+					n++
+					want.WriteString(encTag(t))
+				}
+			}
+			for _, tg := range []int{5092, 5093} {
+				if t, ok := x.Hdr[tg]; ok {
+					n++
+					want.WriteString(encTag(t))
+				}
+			}
+			wantS := fmt.Sprintf("%d%s", n, want.String())
+			res.Checks = append(res.Checks, "rpmsig")
+			ask(fmt.Sprintf("rpmsig %s %d %d %d %s", wire.H(hex.EncodeToString(hsum[:])), len(x.HeaderRaw), len(x.PayloadRaw), payloadSize, wire.H(hex.EncodeToString(psum[:]))), func(ans string) {
+				if ans != wantS {
+					res.f03("rpm-self-description-differs-from-model", "the SHA256 / SIZE / PAYLOADSIZE entries of the signature header or the payload digest entries of the main header are not what the model of rpmpack computes from the header and payload regions as shipped: "+c34FirstDiff(ans, wantS))
+				}
+			})
+			_, hasRSA := x.Sig[268]
+			_, hasPGP := x.Sig[1002]
+			res.check(hasRSA == hasPGP, "rpm-one-signature-without-the-other", "signature header has RSA (268) = %v but PGP (1002) = %v", hasRSA, hasPGP)
+		}
 		// the file list of the header (model of rpmpack's writeFile / writeFileIndexes, RpmFiles.lean): the sixteen
 		// per-file entries of the real header must be exactly what the model writes for the files the independent
 		// reader found – with sizes, digests and link targets recomputed here from the cpio bodies as shipped – and the
